@@ -193,6 +193,11 @@ func VerifH_file_swap() {
 	old := map[string]net.IP{"00:00:00:00:00:01": net.IP{192, 0, 2, 1}}
 	installTable(v6, old)
 	fresh := map[string]net.IP{"00:00:00:00:00:02": net.IP{192, 0, 2, 2}, "00:00:00:00:00:03": net.IP{192, 0, 2, 3}}
+	// a file without any lease line (empty, or comments only) is well-formed too
+	empty := vnd.Pick("emptyfile", 0, 1) == 1
+	if empty {
+		fresh = map[string]net.IP{}
+	}
 	fails := vnd.Pick("malformed", 0, 1) == 1
 	stubRecords, stubLoadErr = fresh, nil
 	if fails {
@@ -214,7 +219,12 @@ func VerifH_file_swap() {
 	} else {
 		vnd.Cover("good-update")
 		vnd.Assert(err == nil, "C10 a well-formed file loads")
-		vnd.Assert(len(cur) == 2 && cur["00:00:00:00:00:02"] != nil && cur["00:00:00:00:00:03"] != nil && cur["00:00:00:00:00:01"] == nil, "C10 a well-formed update replaces the whole mapping")
+		if empty {
+			vnd.Cover("emptied")
+			vnd.Assert(len(cur) == 0, "C10 a well-formed update without leases removes every client")
+		} else {
+			vnd.Assert(len(cur) == 2 && cur["00:00:00:00:00:02"] != nil && cur["00:00:00:00:00:03"] != nil && cur["00:00:00:00:00:01"] == nil, "C10 a well-formed update replaces the whole mapping")
+		}
 		vnd.AssertEngine(sections == 1, "C16 the mapping is swapped inside one write-locked section")
 	}
 }
